@@ -147,18 +147,19 @@ def run_case(case):
     # ----- 1-RDM of single-determinant and NOCI trials (orthonormal orbitals)
     if kind in ("rhf", "uhf", "ghf", "noci"):
         rng2 = np.random.default_rng(case["s"] + 7)
-        t2 = trials.make(kind, norb, (na, nb), rng2, orthonormal=True)
+        # (rhf / uhf: complex orbitals in every other case; either index convention <a+_p a_q> / <a+_q a_p> is accepted below)
+        t2 = trials.make(kind, norb, (na, nb), rng2, orthonormal=True, complex_orbs=bool(kind in ("rhf", "uhf") and case["rep"] % 2 == 1))
         ref = F.rdm1(t2["psi"])
         for name, fn in (("_calc_rdm1", t2["trial"]._calc_rdm1), ("get_rdm1", t2["trial"].get_rdm1)):
             got = np.asarray(fn(t2["wave_data"]))
             r = float(np.max(np.abs(got - ref)))
-            r = min(r, float(np.max(np.abs(got - ref.transpose(0, 2, 1)))))  # real trial: symmetric anyway
+            r = min(r, float(np.max(np.abs(got - ref.transpose(0, 2, 1)))))  # real trial: symmetric anyway; complex trial: Hermitian, conventions differ by a transpose
             events.append(judge("rdm1/" + name, r, 1e-10, "C01/%s/rdm1" % kind, trace_up=float(np.trace(got[0]).real),
                                 trace_dn=float(np.trace(got[1]).real)))
             cnt["rdm"] += 1
         # history on ONE wave_data dict: read the 1-RDM, change the trial parameters in place, read it again
         rng3 = np.random.default_rng(case["s"] + 8)
-        t3 = trials.make(kind, norb, (na, nb), rng3, orthonormal=True)
+        t3 = trials.make(kind, norb, (na, nb), rng3, orthonormal=True, complex_orbs=bool(kind in ("rhf", "uhf") and case["rep"] % 2 == 1))
         wd_hist = dict(t2["wave_data"])
         had_key = "rdm1" in wd_hist
         first = np.asarray(t2["trial"].get_rdm1(wd_hist))
@@ -167,7 +168,7 @@ def run_case(case):
             wd_hist[k_] = v_
         second = np.asarray(t2["trial"].get_rdm1(wd_hist))
         ref3 = F.rdm1(t3["psi"])
-        events.append(judge("rdm1/follows-parameter-change", float(np.max(np.abs(second - ref3))), 1e-10, "C01/%s/rdm1-after-parameter-change" % kind,
+        events.append(judge("rdm1/follows-parameter-change", min(float(np.max(np.abs(second - ref3))), float(np.max(np.abs(second - ref3.transpose(0, 2, 1))))), 1e-10, "C01/%s/rdm1-after-parameter-change" % kind,
                             gained_rdm1_key=bool(("rdm1" in wd_hist) and not had_key)))
         cnt["rdm"] += 1
     return {"events": events, "nontrivial": nontrivial > 0, "sample": sample, "counters": cnt}
